@@ -294,6 +294,61 @@ def arith_task(p, cfg, rec):
     p.res['states'] += 1
 
 
+def zero_task(p, cfg, rec):
+    """compare() when one operand is a zero, however the zero was produced (pattern of either sign, float 0.0,
+    exact cancellation a - a): zero orders below every positive and above every negative value, equal to any zero"""
+    fmt, eb = cfg['fmt'], cfg['eb']
+    ew, mw, bias = FMT[fmt]
+    rec.update(['py4hw.helper.FPNum.compare', 'py4hw.helper.FPNum.sub', 'py4hw.helper.FPNum.add', 'py4hw.helper.FPNum.adjust_semp'])
+    mb, mbv = core.fresh('mb', mw)
+    ma, mav = core.fresh('ma', 3)               # the cancelled operand: 3 symbolic mantissa bits are enough to vary its normal form
+    vars_ = {'ma': mav, 'mb': mbv}
+    routes = {
+        'pattern +0': lambda: fpnum_of(fmt, 0, 0, 0),
+        'pattern -0': lambda: fpnum_of(fmt, 1, 0, 0),
+        'float 0.0': lambda: FPNum(0.0),
+        'a - a (cancellation at the exponent of b)': lambda: fpnum_of(fmt, 0, eb, ma).sub(fpnum_of(fmt, 0, eb, ma)),
+        'a + (-a) (cancellation at a large exponent)': lambda: fpnum_of(fmt, 1, (1 << ew) - 2, ma).add(fpnum_of(fmt, 0, (1 << ew) - 2, ma)),
+    }
+    for rname, mkz in routes.items():
+        for sb in (0, 1):
+            for swap in (False, True):
+                def run():
+                    z = mkz()
+                    b = fpnum_of(fmt, sb, eb, mb)
+                    r = b.compare(z) if swap else z.compare(b)
+                    return (r, b.m)
+                with quiet():
+                    res = run_paths(run)
+                p.res['transitions'] += len(res)
+                viols = []
+                for k, r in enumerate(res):
+                    if r.exc is not None:
+                        p.structural('compare with zero (%s) path %d completes' % (rname, k), False, detail={'exception': repr(r.exc)})
+                        continue
+                    cres, bm = r.ret
+                    bz = zb(bm == 0)
+                    want_nz = (1 if sb == 1 else -1) * (-1 if swap else 1)      # zero vs positive b -> -1 ; vs negative b -> +1
+                    exp = core.ite(bz, 0, want_nz)
+                    viols.append(z3.And(pc_cond(r.pc), ne(cres, exp)))
+
+                def replay(values, rname=rname, sb=sb, swap=swap, mkz=mkz):
+                    from fractions import Fraction
+                    with quiet():
+                        zc = {'pattern +0': lambda: fpnum_of(fmt, 0, 0, 0), 'pattern -0': lambda: fpnum_of(fmt, 1, 0, 0), 'float 0.0': lambda: FPNum(0.0),
+                              'a - a (cancellation at the exponent of b)': lambda: fpnum_of(fmt, 0, eb, values['ma']).sub(fpnum_of(fmt, 0, eb, values['ma'])),
+                              'a + (-a) (cancellation at a large exponent)': lambda: fpnum_of(fmt, 1, (1 << ew) - 2, values['ma']).add(fpnum_of(fmt, 0, (1 << ew) - 2, values['ma']))}[rname]()
+                        b = fpnum_of(fmt, sb, eb, values['mb'])
+                        vb = Fraction(b.s * b.m, b.p) * Fraction(2) ** b.e if b.p else None
+                        got = b.compare(zc) if swap else zc.compare(b)
+                    e = (0 > vb) - (0 < vb)
+                    e = -e if swap else e
+                    return None if got == e else {'zero made by': rname, 'b': float(vb), 'swapped': swap, 'compare': got, 'expected': e}
+                p.prove_many('%s: compare(%s) with zero made by %s, b sign %d exponent field %d' % (fmt, 'b, zero' if swap else 'zero, b', rname, sb, eb),
+                             viols, inputs=vars_, replay=replay, timeout_s=60)
+    p.res['states'] += 1
+
+
 def tasks_for(tier, seed):
     quick = tier == 'quick'
     t = [('two\'s complement helpers, widths 1..%d symbolic' % (16 if quick else 32), c2_task, {'maxw': 16 if quick else 32})]
@@ -325,6 +380,9 @@ def tasks_for(tier, seed):
         pairs += [('dp', a, b) for a, b in ((0, 1), (1023, 1024), (2046, 2046), (1000, 1060))]
     for fmt, a, b in pairs:
         t.append(('FPNum arithmetic %s exponent fields %d,%d' % (fmt, a, b), arith_task, {'fmt': fmt, 'ea': a, 'eb': b}))
+    for fmt, ebs in (('hp', (1, 8, 0, 15, 30)), ('sp', (100, 0, 1, 127, 254)), ('dp', (1, 1023))):
+        for eb in (ebs if not quick else ebs[:2] if fmt == 'hp' else ebs[:1] if fmt == 'sp' else ()):
+            t.append(('FPNum compare with zeros %s, other operand exponent field %d' % (fmt, eb), zero_task, {'fmt': fmt, 'eb': eb}))
     for fmt in ('sp', 'dp'):
         ew, mw, bias = FMT[fmt]
         emax = (1 << ew) - 1
